@@ -7,5 +7,6 @@ CONSTANTS
  DevSplitAll = FALSE
  DevTmplMerge = FALSE
  DevSkipUserUnknown = FALSE
+ DevIdReuse = FALSE
 INVARIANT ExportInv
 CHECK_DEADLOCK FALSE
